@@ -252,6 +252,31 @@ def run(prog, R):
             if not okt:
                 bad.append(("type", show(ty)[:40]))
         R.ob("C08.3-operands-wrapped", "operand unwrapped iff its type == promoted type, else Cast(operand, promoted); result type = promoted", not bad and n == 4, nw.at, f"{n} arithmetic paths; {bad[:3]}")
+    # ---- C08.7 a measurement has the bit shape of its operand: MeasureExpression::to_texpr gives Bit for a single
+    # (hardware) qubit, BitArray(dims of the operand) for a qubit register of any length, Undefined otherwise, and the
+    # choice depends on the operand's type constructor only (a register of length one is still a register)
+    mt = prog.body(A + "MeasureExpression::to_texpr")
+    if mt is None:
+        R.ob("ANCHOR", A + "MeasureExpression::to_texpr", False)
+    else:
+        TV = {d: n for n, d in prog.enum_variants(T + "Type")}
+        rows_m, odd = set(), []
+        for p_ in SymExec(prog, mt, max_paths=500).paths():
+            if "__diverged__" in p_.env:
+                continue
+            cs_ = conds_of(p_)
+            tests = [(show(t_), c_) for t_, c_ in cs_]
+            r_ = deep_strip(p_.env.get(0))
+            ty_ = show(deep_strip(r_[2][1]))[:70] if isinstance(r_, tuple) and r_[0] == "call" and len(r_[2]) > 1 else show(r_)[:70]
+            if len(tests) != 1 or not tests[0][0].startswith("discr(get_type("):
+                odd.append((tests, ty_))
+                continue
+            c_ = tests[0][1]
+            who = TV.get(c_[1], c_[1]) if c_[0] == "eq" else "other"
+            rows_m.add((who, ty_.split("(")[0], "get_type(self.0).0" in ty_))
+        want_m = {("Qubit", "Type::Bit", False), ("HardwareQubit", "Type::Bit", False), ("QubitArray", "Type::BitArray", True), ("other", "Type::Undefined", False)}
+        R.ob("C08.7-measure-shape", "Bit for a qubit, BitArray(operand dims) for a register, Undefined otherwise", rows_m == want_m and not odd, mt.at,
+             f"{sorted(rows_m)}" if rows_m == want_m and not odd else f"rows {sorted(rows_m)}; paths with other tests {odd[:2]}: the bit shape of a measurement does not follow the operand's shape alone (`qubit[1] q; bit c = measure q;` must be diagnosed like any register-to-bit assignment)")
     R.premises(prog, "C08.4-premise", ["C20:C20."],
                "the common type of an arithmetic expression is promote_types(..) and the justification rule accepts `equal_up_to_constness(target, value)` and `can_cast_literal` as written: their decision tables must be the ones C20 checks")
     R.premises(prog, "C08.1-literal-class-premise", ["C10:C10.4-"], "a literal has the type of its literal class: which constructor (plain / imaginary / timing) the translator uses for each literal form is C10.4's table")
